@@ -78,7 +78,8 @@ type Violation struct {
 
 type Stats struct {
 	Scenario     string         `json:"scenario"`
-	Bound        int            `json:"bound"` // completed preemption bound; -1 = unbounded
+	Bound        int            `json:"bound"`           // preemption bound of the reported pass; -1 = unbounded
+	Completed    int            `json:"completed_bound"` // highest bound explored completely (-2: none)
 	Exhaustive   bool           `json:"exhaustive"`
 	Execs        int            `json:"executions"`
 	Pruned       int            `json:"pruned"`
@@ -145,6 +146,9 @@ func (e *Explorer) Explore() {
 		bounds = []int{0, 1}
 	}
 	bi := 0
+	completed := -2
+	var lastDone *Stats
+	var lastViol []Violation
 	for {
 		e.Bound = bounds[bi]
 		e.seen = map[uint64]int{}
@@ -156,6 +160,14 @@ func (e *Explorer) Explore() {
 		e.cut = false
 		e.topCount = 0
 		if e.tryExplore() {
+			if !e.cut && e.HarnessErr == "" {
+				completed = e.Bound
+				st := e.Stats
+				st.States = len(e.states)
+				st.Outcomes = len(e.outcomes)
+				lastDone = &st
+				lastViol = e.Violations
+			}
 			if bi == len(bounds)-1 || e.cut || e.HarnessErr != "" {
 				break
 			}
@@ -172,6 +184,28 @@ func (e *Explorer) Explore() {
 	e.Stats.States = len(e.states)
 	e.Stats.Outcomes = len(e.outcomes)
 	e.Stats.Exhaustive = !e.cut
+	if e.cut && lastDone != nil {
+		// the deadline hit the deeper pass: report the last bound that was explored completely,
+		// keep anything the cut pass found on top of it
+		cutViol := e.Violations
+		note := fmt.Sprintf("%sbound %d cut by deadline after %d executions; ", e.Stats.Note, e.Bound, e.Stats.Execs)
+		total := e.Stats.TotalRuns
+		e.Stats = *lastDone
+		e.Stats.Note = note
+		e.Stats.TotalRuns = total
+		e.Stats.Exhaustive = false
+		e.Violations = lastViol
+		have := map[string]bool{}
+		for _, v := range e.Violations {
+			have[v.Sig] = true
+		}
+		for _, v := range cutViol {
+			if !have[v.Sig] {
+				e.Violations = append(e.Violations, v)
+			}
+		}
+	}
+	e.Stats.Completed = completed
 	e.Stats.WallS = time.Since(start).Seconds()
 }
 
